@@ -145,6 +145,16 @@ Theorem C09_passed_only_wellformed :
 Proof. exact passed_only_wellformed_lemma. Qed.
 Print Assumptions C09_passed_only_wellformed.
 
+(* 4c. 1 and 4b together: a message is passed exactly when it has the accepted form. *)
+Theorem C09_passed_iff :
+  forall cfg cnt input,
+  cfg_ok cfg ->
+  ((exists r cnt', parse cfg cnt input = (Ok (Some r), cnt')) <->
+   ((32 <= length input)%nat /\
+    exists lit n h msg, input = render_with lit h msg /\ int_literal lit n /\ (0 <= n <= 191)%Z /\ header_ok h)).
+Proof. exact passed_iff_lemma. Qed.
+Print Assumptions C09_passed_iff.
+
 (* 5. A sequence of messages through one parser instance (the counters are its only state): no panic,
    the outcome of every message is the one it has on a fresh parser (no dependence on what was parsed
    before), and after n messages passed+dropped has advanced by n records and the sum of their lengths. *)
@@ -194,6 +204,13 @@ Theorem C09_decode_encode :
   forall c rest, scalar c -> decode_rune (utf8_encode c ++ rest) = (c, length (utf8_encode c)).
 Proof. exact decode_encode. Qed.
 Print Assumptions C09_decode_encode.
+
+(* the encoding is uniquely decodable: the characters of a valid string, hence its character
+   boundaries (used in 3b), are determined by the bytes *)
+Theorem C09_utf8_encode_injective :
+  forall cs cs', Forall scalar cs -> Forall scalar cs' -> utf8_encode_all cs = utf8_encode_all cs' -> cs = cs'.
+Proof. exact encode_all_injective. Qed.
+Print Assumptions C09_utf8_encode_injective.
 
 (* strings.ToValidUTF8(s, "") is valid UTF-8 and leaves valid UTF-8 alone *)
 Theorem C09_to_valid_utf8_valid : forall s, valid_utf8 (to_valid_utf8 s).
